@@ -6,6 +6,11 @@
 // point is a counter increment or the plain Go operation.
 package verifrt
 
+import (
+	"runtime"
+	"strings"
+)
+
 // Tick accounting (rewrite R1): a call is inserted at every function entry and loop body of the
 // five library packages. The counter is process-global: workers that arm a budget run their
 // executions on one goroutine.
@@ -24,13 +29,51 @@ func Tick() {
 	ticks++
 	if ticks > budget {
 		s := ticks
-		budget = 1<<62 - 1 // disarm so that deferred code can run
+		if exceededAt == "" {
+			exceededAt = callChain(2)
+			exceededSteps = s
+		}
+		// the library recovers panics in places (Parse, ofbase.Header.Decode): give deferred code
+		// some room, then raise the panic again until the execution has unwound
+		budget = ticks + 256
 		panic(BudgetExceeded{Steps: s})
 	}
 }
 
+var (
+	exceededAt    string
+	exceededSteps int64
+)
+
+// Exceeded reports whether the armed budget was exhausted since the last Arm, and where.
+func Exceeded() (bool, string, int64) { return exceededAt != "", exceededAt, exceededSteps }
+
+// callChain names the libOpenflow functions on the current stack, innermost first.
+func callChain(skip int) string {
+	pc := make([]uintptr, 48)
+	n := runtime.Callers(skip+1, pc)
+	fr := runtime.CallersFrames(pc[:n])
+	var out []string
+	for {
+		f, more := fr.Next()
+		if i := strings.Index(f.Function, "libOpenflow/"); i >= 0 && !strings.Contains(f.Function, "/verifrt") {
+			name := f.Function[i+len("libOpenflow/"):]
+			if len(out) == 0 || out[len(out)-1] != name {
+				out = append(out, name)
+			}
+		}
+		if !more || len(out) >= 6 {
+			break
+		}
+	}
+	return strings.Join(out, "<")
+}
+
+// CallChain is callChain for harnesses (used inside recover handlers).
+func CallChain() string { return callChain(2) }
+
 // Arm resets the counter and sets a budget for the next execution.
-func Arm(n int64) { ticks = 0; budget = n }
+func Arm(n int64) { ticks = 0; budget = n; exceededAt = ""; exceededSteps = 0 }
 
 // Disarm removes the budget and returns the steps used since Arm.
 func Disarm() int64 { budget = 1<<62 - 1; return ticks }
